@@ -555,6 +555,16 @@ def run(ctx):
         {"key": "file/mutant(M_TmpStartsEmpty=FALSE)", "module": "OffsetsFile", "cfg": "OffsetsFile_quick.cfg",
          "overrides": dict(noexp, M_TmpStartsEmpty="FALSE"), "expect": "violated",
          "violates": ("AlwaysLoadable",), "workers": 3},
+        # ORDER of the steps (M_SyncBeforeRename): the mutant "rename, then fsync" must be rejected by each of the two properties,
+        # for both savers
+        {"key": "file/mutant(rename-then-fsync)/DurableBeforeReplace", "module": "OffsetsFile", "cfg": "OffsetsFile_order_dbr.cfg",
+         "expect": "violated", "violates": ("DurableBeforeReplace",), "workers": 2},
+        {"key": "file/mutant(rename-then-fsync)/FailedStepKeepsOld", "module": "OffsetsFile", "cfg": "OffsetsFile_order_fsk.cfg",
+         "expect": "violated", "violates": ("FailedStepKeepsOld",), "workers": 2},
+        {"key": "generic/mutant(rename-then-fsync)/DurableBeforeReplace", "module": "OffsetsFile", "cfg": "OffsetsFile_order_dbr.cfg",
+         "overrides": gen, "expect": "violated", "violates": ("DurableBeforeReplace",), "workers": 2},
+        {"key": "generic/mutant(rename-then-fsync)/FailedStepKeepsOld", "module": "OffsetsFile", "cfg": "OffsetsFile_order_fsk.cfg",
+         "overrides": gen, "expect": "violated", "violates": ("FailedStepKeepsOld",), "workers": 2},
         {"key": "generic/faithful", "module": "OffsetsFile", "cfg": "OffsetsFile_quick.cfg", "overrides": gen, "expect": "ok", "workers": 2},
         {"key": "generic/mutant(D_NoFsync)", "module": "OffsetsFile", "cfg": "OffsetsFile_quick.cfg",
          "overrides": dict(gen, D_NoFsync="TRUE", **noexp), "expect": "violated",
@@ -755,6 +765,15 @@ def run(ctx):
             done.append(r)
     if len(done) < 0.8 * (len(scen) - skipped) or not done:
         raise vlib.Infra("only %d of %d scenarios could be followed under strace (%d inconclusive)" % (len(done), len(scen), inconclusive))
+
+    # both savers must have been observed, offset.Save also with a failing fsync (the old file has to stay in place and loadable)
+    nfile = sum(1 for r in done if r["sc"]["site"] == "file")
+    ngen = sum(1 for r in done if r["sc"]["site"] == "generic")
+    ngen_sync = sum(1 for r in done if r["sc"]["site"] == "generic" and any(f[1] == "sync" for f in r["sc"]["faults"]))
+    nfile_sync = sum(1 for r in done if r["sc"]["site"] == "file" and any(f[1] == "sync" for f in r["sc"]["faults"]))
+    if not getattr(ctx, "replay", None) and (nfile < 10 or ngen < 10 or ngen_sync < 1 or nfile_sync < 1):
+        raise vlib.Infra("too few traced scenarios: offsetDB.save %d (%d with a failing fsync), offset.Save %d (%d with a failing fsync)"
+                         % (nfile, nfile_sync, ngen, ngen_sync))
 
     # ---------------------------------------------------------------- 5. trace validation by TLC
     step_desc, tviol, tdrift = {}, [], []
@@ -993,7 +1012,9 @@ def run(ctx):
                 "non-trivial = distinct (site, mode, injected faults, trace length).  (c) every disk content the crash semantics "
                 "allows after every system call (all byte prefixes) loaded by the real load().  (d) concurrent commits/saves/loads."
                 % (len(tables), uniq_f, uniq_g, shapes_f + shapes_g, "all fault shapes and a seeded sample of %d schedules" % len(scen)))
-    ctx.extra.update({"leftover_tempfile_schedules_replayed": n_left, "truncation_sequences": len(seq_cases), "truncation_loads": seq_loads, "truncation_loads_with_zero_offset": seq_zero,
+    ctx.extra.update({"traced_scenarios": {"offsetDB.save": nfile, "offsetDB.save with failing fsync": nfile_sync,
+                                           "offset.Save": ngen, "offset.Save with failing fsync": ngen_sync},
+                      "leftover_tempfile_schedules_replayed": n_left, "truncation_sequences": len(seq_cases), "truncation_loads": seq_loads, "truncation_loads_with_zero_offset": seq_zero,
                       "round_trip_tables": len(tables), "round_trip_failures": rt_bad, "scenarios_followed": len(done),
                       "scenarios_inconclusive": inconclusive, "scenarios_not_applicable": skipped, "strace_runs": strace_runs,
                       "disk_views_checked": nviews, "distinct_disk_contents_loaded": ndisk, "concurrency": conc_stats,
